@@ -1006,9 +1006,278 @@ func (g *c09gen) patched() {
 		fmt.Sprintf("patched %s -> %s", src, obsText(o)), "patched/"+m.js, true)
 }
 
+// ---------- index properties of String objects (15.5.5.2 and the ordinary object methods) ----------
+
+const propsPrelude = `function D(o,k){var d=Object.getOwnPropertyDescriptor(o,k); if(d===undefined) return "U";
+  if ("get" in d || "set" in d) return "A|"+(typeof d.get==="function"?1:0)+"|"+(typeof d.set==="function"?1:0)+"|"+(d.enumerable?1:0)+"|"+(d.configurable?1:0);
+  return "D|"+(d.writable?1:0)+"|"+(d.enumerable?1:0)+"|"+(d.configurable?1:0)+"|"+(typeof d.value==="number"?"n"+d.value:(typeof d.value==="string"?"s"+d.value:"u"))}
+function K(a){var t=""; for(var i=0;i<a.length;i++) t += (i?",":"") + a[i]; return t}`
+// (K builds a string, not an array: index properties planted on Object.prototype also intercept [[Put]] on arrays)
+
+type pval struct{ js, coq string }
+
+func (g *c09gen) propValue() pval {
+	r := g.env.Rng
+	if r.Intn(3) == 0 {
+		c := Pick(r, []uint16{'q', 'x', 'a', 0xE9})
+		return pval{JSStr([]uint16{c}), fmt.Sprintf("(PStr [%d])", c)}
+	}
+	n := int64(r.Intn(90) + 1)
+	return pval{fmt.Sprintf("%d", n), fmt.Sprintf("(PNum %d)", n)}
+}
+
+func optBool(r interface{ Intn(int) int }, name string) (string, string) {
+	switch r.Intn(3) {
+	case 0:
+		return "", "None"
+	case 1:
+		return name + ":true", "(Some true)"
+	default:
+		return name + ":false", "(Some false)"
+	}
+}
+
+// parse the D(...) text into the Coq res of SpecObj.res_of_desc
+func descRes(t string) string {
+	if t == "U" {
+		return "VUndef"
+	}
+	f := strings.SplitN(t, "|", 5)
+	if f[0] == "A" && len(f) == 5 {
+		return fmt.Sprintf("VList [[1; %s; %s; %s; %s]]", f[1], f[2], f[3], f[4])
+	}
+	if f[0] == "D" && len(f) == 5 {
+		v := "[2]"
+		switch {
+		case strings.HasPrefix(f[4], "n"):
+			var n int64
+			if _, err := fmt.Sscanf(f[4][1:], "%d", &n); err != nil {
+				return "VErr 97"
+			}
+			v = "[0; " + Cz(n) + "]"
+		case strings.HasPrefix(f[4], "s"):
+			items := []string{"1"}
+			for _, c := range Units(f[4][1:]) {
+				items = append(items, fmt.Sprintf("%d", c))
+			}
+			v = Clist(items)
+		}
+		return fmt.Sprintf("VList [[0; %s; %s; %s]; %s]", f[1], f[2], f[3], v)
+	}
+	return "VErr 97"
+}
+
+// "0,1,2,length,5" -> the numeric names, sorted
+func keysRes(t string) string {
+	var ks []int64
+	for _, f := range strings.Split(t, ",") {
+		var n int64
+		if f != "" && strings.Trim(f, "0123456789") == "" {
+			fmt.Sscanf(f, "%d", &n)
+			ks = append(ks, n)
+		}
+	}
+	for i := 1; i < len(ks); i++ {
+		for j := i; j > 0 && ks[j-1] > ks[j]; j-- {
+			ks[j-1], ks[j] = ks[j], ks[j-1]
+		}
+	}
+	return "VList [" + Czlist(ks) + "]"
+}
+
+func cvalB(o Outcome) string {
+	if o.Panic == nil && o.Err == nil && o.Val.IsBoolean() {
+		b, _ := o.Val.ToBoolean()
+		if b {
+			return "VInt 1"
+		}
+		return "VInt 0"
+	}
+	return cres(o)
+}
+
+func (g *c09gen) propsHistory() {
+	r := g.env.Rng
+	vm := otto.New()
+	g.cur = vm
+	defer func() { g.cur = g.vm }()
+	if o := RunJS(vm, propsPrelude); o.Err != nil || o.Panic != nil {
+		panic(fmt.Sprintf("c09: props prelude: %v %v", o.Err, o.Panic))
+	}
+	var u []uint16
+	for { // the text of the String object: no surrogates, no U+FFFD (those are classes 2 and 3)
+		u = g.units(r.Intn(3), 6)
+		ok := true
+		for _, c := range u {
+			if c >= 0xD800 && c < 0xE000 || c == 0xFFFD {
+				ok = false
+			}
+		}
+		if ok {
+			break
+		}
+	}
+	ue := g.strExpr(u)
+	init := "var s = new String(" + ue + ");"
+	if r.Intn(4) == 0 {
+		init = "var s = Object(" + ue + ");"
+	}
+	if o := RunJS(vm, init); o.Err != nil || o.Panic != nil {
+		panic(fmt.Sprintf("c09: props init %s: %v %v", init, o.Err, o.Panic))
+	}
+	n := int64(len(u))
+	key := func() int64 {
+		switch k := r.Intn(12); {
+		case k < 3 && n > 0:
+			return r.Int63n(n)
+		case k < 4 && n > 0:
+			return n - 1
+		case k < 7:
+			return n
+		case k < 9:
+			return n + 1 + r.Int63n(2)
+		case k < 10:
+			return n + 5
+		case k < 11:
+			return Pick(r, []int64{4294967294, 4294967295, 4294967296})
+		default:
+			return r.Int63n(n + 4)
+		}
+	}
+	lvls := []struct{ js, coq string }{{"s", "LS"}, {"s", "LS"}, {"s", "LS"}, {"String.prototype", "LSP"}, {"Object.prototype", "LOP"}}
+	touched := map[string]bool{}
+	var last int64 = n
+	nops := 4 + r.Intn(7)
+	var ops, obs, txt []string
+	txt = append(txt, propsPrelude, init)
+	for i := 0; i < nops; i++ {
+		k := key()
+		if r.Intn(2) == 0 {
+			k = last // come back to the key just worked on
+		}
+		last = k
+		var src, op string
+		conv := cvalB
+		switch q := r.Intn(20); {
+		case q < 4:
+			l := Pick(r, lvls)
+			v := g.propValue()
+			src, op = fmt.Sprintf("%s[%d] = %s; undefined", l.js, k, v.js), fmt.Sprintf("OSet %s %s %s", l.coq, Cz(k), v.coq)
+			touched[fmt.Sprintf("%s/%d", l.coq, k)] = true
+		case q < 7:
+			l := Pick(r, lvls)
+			if touched[fmt.Sprintf("%s/%d", l.coq, k)] {
+				i--
+				last = key()
+				continue
+			}
+			touched[fmt.Sprintf("%s/%d", l.coq, k)] = true
+			var fields []string
+			var d string
+			ejs, ecq := optBool(r, "enumerable")
+			cjs, ccq := optBool(r, "configurable")
+			if r.Intn(3) == 0 { // accessor
+				gv, gc := "", "None"
+				hs := r.Intn(2) == 0
+				if r.Intn(4) > 0 || !hs {
+					v := g.propValue()
+					gv, gc = "get:function(){return "+v.js+"}", "(Some "+v.coq+")"
+				}
+				if gv != "" {
+					fields = append(fields, gv)
+				}
+				if hs {
+					fields = append(fields, "set:function(v){}")
+				}
+				d = fmt.Sprintf("DA %s %s %s %s", gc, Cbool(hs), ecq, ccq)
+			} else {
+				vj, vc := "", "None"
+				if r.Intn(4) > 0 {
+					v := g.propValue()
+					if k < n && r.Intn(3) == 0 { // the very character that is there: ES5 accepts it
+						v = pval{JSStr(u[k : k+1]), fmt.Sprintf("(PStr [%d])", u[k])}
+					}
+					vj, vc = "value:"+v.js, "(Some "+v.coq+")"
+				}
+				wjs, wcq := optBool(r, "writable")
+				if vj != "" {
+					fields = append(fields, vj)
+				}
+				if wjs != "" {
+					fields = append(fields, wjs)
+				}
+				d = fmt.Sprintf("DD %s %s %s %s", vc, wcq, ecq, ccq)
+			}
+			if ejs != "" {
+				fields = append(fields, ejs)
+			}
+			if cjs != "" {
+				fields = append(fields, cjs)
+			}
+			src = fmt.Sprintf("Object.defineProperty(%s, \"%d\", {%s}); 1", l.js, k, strings.Join(fields, ","))
+			op = fmt.Sprintf("ODefine %s %s (%s)", l.coq, Cz(k), d)
+		case q < 9:
+			l := Pick(r, lvls)
+			src, op = fmt.Sprintf("delete %s[%d]", l.js, k), fmt.Sprintf("ODelete %s %s", l.coq, Cz(k))
+		case q < 11:
+			src, op = fmt.Sprintf("s[%d]", k), "OGet "+Cz(k)
+		case q < 12:
+			src, op = fmt.Sprintf("(%s)[%d]", ue, k), "OGetPrim "+Cz(k)
+		case q < 13:
+			src, op = fmt.Sprintf("%d in s", k), "OIn "+Cz(k)
+		case q < 14:
+			src, op = fmt.Sprintf("s.hasOwnProperty(%d)", k), "OHasOwn "+Cz(k)
+			if r.Intn(2) == 0 {
+				src = fmt.Sprintf("Object.prototype.hasOwnProperty.call(s, \"%d\")", k)
+			}
+		case q < 16:
+			src, op = fmt.Sprintf("D(s, \"%d\")", k), "ODesc "+Cz(k)
+			conv = func(o Outcome) string {
+				if o.Err != nil || o.Panic != nil || !o.Val.IsString() {
+					return cres(o)
+				}
+				return descRes(o.Val.String())
+			}
+		case q < 18:
+			src, op = "K(Object.keys(s))", "OKeys"
+			if r.Intn(2) == 0 {
+				src, op = "K(Object.getOwnPropertyNames(s))", "ONames"
+			}
+			conv = func(o Outcome) string {
+				if o.Err != nil || o.Panic != nil || !o.Val.IsString() {
+					return cres(o)
+				}
+				return keysRes(o.Val.String())
+			}
+		default:
+			m := methods[r.Intn(8)] // charAt .. split on the String object itself
+			args := g.callArgs(m, u, 2)
+			src, op = "s."+m.js+"("+strings.Join(jsOf(args), ",")+")", fmt.Sprintf("OCall %s %s", m.coq, coqOf(args))
+			conv = cres
+		}
+		o := RunJS(vm, src)
+		ops = append(ops, op)
+		obs = append(obs, conv(o))
+		txt = append(txt, src+" -> "+obsText(o))
+	}
+	g.env.Add(fmt.Sprintf("CProps %s %s %s", Cunits(u), Clist(ops), Clist(obs)), "props "+strings.Join(txt, " ;; "), "props", true)
+}
+
+func (g *c09gen) pinnedProps(u, opsCoq string, srcs []string) {
+	vm := otto.New()
+	RunJS(vm, propsPrelude)
+	var obs, txt []string
+	for _, src := range srcs {
+		o := RunJS(vm, src)
+		obs = append(obs, cvalB(o))
+		txt = append(txt, src+" -> "+obsText(o))
+	}
+	g.env.Add(fmt.Sprintf("CProps %s %s %s", u, opsCoq, Clist(obs)), "pinned props "+strings.Join(txt, " ;; "), "pinned", true)
+}
+
 func runC09(env *Env) {
 	env.Import = "Otto.C09.Corr"
-	env.Rule = "receiver strings of 0-8 code points, and of 0-40 units with the non-ASCII characters first / last / spread / only after an ASCII prefix of 8k-1, 8k, 8k+1 bytes with a 0-6 byte ASCII tail, over ASCII / Latin-1 / BMP (2- and 3-byte UTF-8, U+FFFD, whitespace set) / astral pairs / lone surrogates, written as literals, escapes, concatenations, String.fromCharCode, String(object) or Go strings handed over with Otto.Set; position arguments around 0 and the byte, rune and unit lengths of receiver and needle, negative, fractional, NaN, +-Infinity, -0, undefined/null/boolean, omitted, 2^31, 2^32, 2^53, 2^63 neighbourhood, 1e19; receivers string / String object / .call on string, number, boolean, object with toString, undefined, null; histories of 2-5 calls on one variable; histories of 2-5 calls on one runtime whose receiver and arguments are objects with logging, throwing (caught by the script or not) and re-entrant toString/valueOf, compared on result and conversion log; calls under a replaced String.prototype.toString; every generated case counts as non-trivial when distinct"
+	env.Rule = "receiver strings of 0-8 code points, and of 0-40 units with the non-ASCII characters first / last / spread / only after an ASCII prefix of 8k-1, 8k, 8k+1 bytes with a 0-6 byte ASCII tail, over ASCII / Latin-1 / BMP (2- and 3-byte UTF-8, U+FFFD, whitespace set) / astral pairs / lone surrogates, written as literals, escapes, concatenations, String.fromCharCode, String(object) or Go strings handed over with Otto.Set; position arguments around 0 and the byte, rune and unit lengths of receiver and needle, negative, fractional, NaN, +-Infinity, -0, undefined/null/boolean, omitted, 2^31, 2^32, 2^53, 2^63 neighbourhood, 1e19; receivers string / String object / .call on string, number, boolean, object with toString, undefined, null; histories of 2-5 calls on one variable; histories of 2-5 calls on one runtime whose receiver and arguments are objects with logging, throwing (caught by the script or not) and re-entrant toString/valueOf, compared on result and conversion log; calls under a replaced String.prototype.toString; histories of 4-10 index-property operations (assignment, defineProperty data/accessor, delete, s[k], u[k], in, hasOwnProperty, getOwnPropertyDescriptor, keys, getOwnPropertyNames, method calls) on a String object, String.prototype and Object.prototype with keys below, at and beyond the length; every generated case counts as non-trivial when distinct"
 	g := &c09gen{env: env, vm: otto.New()}
 	r := env.Rng
 
@@ -1030,6 +1299,11 @@ func runC09(env *Env) {
 	g.pinnedCall("MLength", "RLit [97;98;99;100;101;102;103;104;233]", "[]", `"abcdefgh\u00e9".length`)
 	g.pinnedCall("MCharCodeAt", "RLit [97;98;99;100;101;102;103;104;233]", "[ANum "+Cdouble(8)+"]", "'abcdefgh\u00e9'.charCodeAt(8)")
 	g.pinnedCall("MIndex", "RStrObj [97;98;99;100;101;102;103;104;233;122]", "[AStr [57]]", "new String('abcdefgh\u00e9z')[9]")
+	// an expando index beyond the length is an ordinary property (15.5.5.2 step 2); defineProperty below the length
+	g.pinnedProps("[97;98;99]", "[OSet LS 5 (PStr [120]); OGet 5; OIn 5; OHasOwn 5; OSet LSP 7 (PStr [122]); OGetPrim 7; OGet 7]",
+		[]string{`var s = new String("abc"); s[5] = "x"; undefined`, `s[5]`, `5 in s`, `s.hasOwnProperty(5)`, `String.prototype[7] = "z"; undefined`, `"abc"[7]`, `s[7]`})
+	g.pinnedProps("[97;98;99]", "[ODefine LS 1 (DD (Some (PStr [120])) None None None); OGet 1]",
+		[]string{`var s = new String("abc"); Object.defineProperty(s, "1", {value:"x"}); 1`, `s[1]`})
 	g.pinnedEffect("(Some MSplit, ERLit [97;44;98], [EObj 1 [44] 0 false false; EPlain (ANum 0)])", `"a,b".split(E(1,",",0,false,false,null), 0)`)
 	g.pinnedEffect("(Some MLastIndexOf, ERLit [], [EPlain (AStr [99]); EObj 2 [120] "+Cdouble(3)+" false false])", `"".lastIndexOf("c", E(2,"x",3,false,false,null))`)
 	{
@@ -1051,8 +1325,10 @@ func runC09(env *Env) {
 			g.compare()
 		case k < 80:
 			g.chain()
-		case k < 94:
+		case k < 90:
 			g.effectHistory()
+		case k < 95:
+			g.propsHistory()
 		default:
 			g.patched()
 		}
